@@ -15,8 +15,9 @@ verus! {
 //@ item rust/automerge/src/types.rs | struct ChangeHash
 #[verifier::external_body] #[verifier::reject_recursive_types(T)] pub struct BTreeSet<T> { _p: core::marker::PhantomData<T> }
 impl<T> BTreeSet<T> {
-    #[verifier::external_body] pub fn new() -> (r: Self) { unimplemented!() }
-    #[verifier::external_body] pub fn clear(&mut self) { unimplemented!() }
+    pub uninterp spec fn view(&self) -> Set<T>;
+    #[verifier::external_body] pub fn new() -> (r: Self) ensures r.view() == Set::<T>::empty() { unimplemented!() }
+    #[verifier::external_body] pub fn clear(&mut self) ensures final(self).view() == Set::<T>::empty() { unimplemented!() }
 }
 impl<T> Clone for BTreeSet<T> { #[verifier::external_body] fn clone(&self) -> (r: Self) ensures r == *self { unimplemented!() } }
 impl<T> PartialEq for BTreeSet<T> { #[verifier::external_body] fn eq(&self, o: &Self) -> bool { unimplemented!() } }
@@ -43,7 +44,8 @@ impl MessageFlags {
     pub const SUPPORTS_SYNC_RESET: MessageFlags = MessageFlags { bits: 1 };
     pub const SYNC_RESET: MessageFlags = MessageFlags { bits: 2 };
     pub const READ_ONLY: MessageFlags = MessageFlags { bits: 4 };
-    #[verifier::external_body] pub fn contains(&self, o: MessageFlags) -> bool { unimplemented!() }
+    pub uninterp spec fn has(&self, o: MessageFlags) -> bool;
+    #[verifier::external_body] pub fn contains(&self, o: MessageFlags) -> (r: bool) ensures r == self.has(o) { unimplemented!() }
 }
 /// `ChunkList(Vec<Vec<u8>>)`
 pub struct ChunkList(pub Vec<Vec<u8>>);
@@ -59,7 +61,9 @@ impl ChunkList {
 impl Automerge {
     #[verifier::external_body] pub fn get_heads(&self) -> Vec<ChangeHash> { unimplemented!() }
     #[verifier::external_body] pub fn has_change(&self, h: &ChangeHash) -> bool { unimplemented!() }
-    #[verifier::external_body] pub fn filter_changes(&self, heads: &[ChangeHash], changes: &mut BTreeSet<ChangeHash>) -> Result<(), AutomergeError> { unimplemented!() }
+    /// removes hashes (the ancestors of the heads the document knows) from `changes`, never adds one
+    #[verifier::external_body] pub fn filter_changes(&self, heads: &[ChangeHash], changes: &mut BTreeSet<ChangeHash>) -> (r: Result<(), AutomergeError>)
+        ensures final(changes).view().subset_of(old(changes).view()) { unimplemented!() }
     /// the ONLY mutating callee: no postcondition, it may change anything
     #[verifier::external_body] pub fn load_incremental_log_patches(&mut self, data: &[u8], log: &mut PatchLog) -> Result<usize, AutomergeError> { unimplemented!() }
 }
@@ -107,6 +111,9 @@ impl Automerge {
             old(sync_state).read_only ==> *final(self) == *old(self),
             // receiving does not flip the mode
             final(sync_state).read_only == old(sync_state).read_only,
+            // C22 (third clause, mechanism): a SYNC_RESET request is honoured whatever else the message says -- the receiver
+            // forgets everything it believes it has sent, so the changes the requester skipped are sent again
+            r is Ok && (message.flags matches Some(f) && f.has(MessageFlags::SYNC_RESET)) ==> final(sync_state).sent_hashes.view() == Set::<ChangeHash>::empty(),
 //@ end
 }
 
